@@ -1,3 +1,4 @@
+pub mod astro;
 pub mod cal;
 pub mod ganzhi;
 pub mod lunar_seq;
